@@ -10,6 +10,9 @@
 //   letters a (VCPU_ENABLE_ACTIVE_WORK_STEALING) p (..PASSIVE..) or `-`.  Threads 0..nv-1 are the main
 //   photon threads of the vCPUs, nv..n-1 are started by `create k j ws`, n+v is the idler of vCPU v.
 //   ops: usleep d | yield | interrupt k e | create k j ws | join k | migrate k u | nthreads | released k | nop
+//        waitall (photon::wait_all(), main threads only) | fini (photon::vcpu_fini(), main threads only: the vCPU is
+//        finalised — wait_all, go_offline, the idler exits and is joined, vcpu_t and the main thread object are destroyed;
+//        its OS thread stays in the token protocol but executes nothing any more; dumped as `V<v>[off]`, T<v>=D, T<n+v>=D)
 //   cmds (one vCPU acts at a time, all others are blocked on a semaphore OUTSIDE the scheduler):
 //     s<v>  the CURRENT thread of v runs its next op up to the next gate of v (idler: thread_yield())
 //     y<v>  same, but a thread_yield() parks inside the yield window (hook photon_verif_c05_yield_window)
@@ -69,6 +72,7 @@ static thread** CURSLOT[MAXV];
 static uint8_t VFLAGS[MAXV];
 static sem_t sem_v[MAXV], sem_done;
 static bool holding[MAXV], arm_window[MAXV];
+static volatile bool vfini[MAXV];          // vcpu_fini() returned on this OS thread: VC[v], T[v].th, the idler are freed
 static Cmd cur_cmd;
 static uint64_t vclock = 1000;
 static int g_outfd = 1;
@@ -119,7 +123,7 @@ static void ls_cb(int id, const void*, const void* l1, const void* l2) {
 __attribute__((noinline)) static Cmd gate() {
     int me = os_idx();
     thread* c = get_current();
-    if (!c || c->get_vcpu() != VC[me]) note("WRONGCPU(os" + std::to_string(me) + ")");
+    if (!vfini[me] && (!c || c->get_vcpu() != VC[me])) note("WRONGCPU(os" + std::to_string(me) + ")");
     arm_window[me] = false;
     if (holding[me]) { holding[me] = false; sem_post(&sem_done); }
     while (sem_wait(&sem_v[me]) < 0 && get_errno() == EINTR) {}
@@ -147,6 +151,7 @@ static void yield_window_cb() {
 
 static bool alive(int64_t k) {
     if (k < 0 || k >= N) return false;
+    if (k < NV && vfini[k]) return false;            // the main thread object of a finalised vCPU is deleted
     auto& t = T[k];
     return t.created && (!t.finished || (t.joinable && !t.joined));
 }
@@ -188,7 +193,7 @@ static Res exec_op(int self, const Item& op) {
     }
     if (n == "migrate") {
         int64_t k = op.a(0), u = op.a(1);
-        if (!alive(k) || u < 0 || u >= NV || !is_user(k)) return Res{SKIPPED, 0};
+        if (!alive(k) || u < 0 || u >= NV || !is_user(k) || vfini[u]) return Res{SKIPPED, 0};
         int r = photon::thread_migrate(T[k].th, VC[u]);
         return R(r);
     }
@@ -199,6 +204,17 @@ static Res exec_op(int self, const Item& op) {
         return Res{released_of(T[k].th), 0};
     }
     if (n == "nop") return Res{0, 0};
+    if (n == "waitall") {
+        if (self >= NV) return Res{SKIPPED, 0};
+        int r = photon::wait_all();
+        return R(r);
+    }
+    if (n == "fini") {
+        if (self >= NV) return Res{SKIPPED, 0};
+        int r = photon::vcpu_fini();              // the commanded idler returns as soon as it sees vcpu->state == DONE
+        vfini[self] = true;
+        return R(r);
+    }
     return Res{-99, 0};
 }
 
@@ -208,6 +224,7 @@ static void run_thread(int self) {
         wait_step();
         Res r = exec_op(self, me.ops[me.pc]);
         evs.push_back(Ev{self, me.pc, r.ret, r.err, (uint64_t)photon::now});
+        if (self < NV && vfini[self]) { me.pc++; for (;;) gate(); }     // no vCPU any more: nothing is executed here again
     }
     if (self >= NV) { me.finished = true; wait_step(); me.exited = true; return; }   // the entry function returns: thread::die
     for (;;) { wait_step(); photon::thread_usleep(-1); }                        // a main thread parks, stays a valid target
@@ -225,6 +242,8 @@ static void* thread_body(void* arg) {
 // calls the same file-static functions the library's idler() calls, one at a time.
 static void* my_idler(void*) {
     for (;;) {
+        // vcpu_fini (2345-2346) sets vcpu->state = DONE and joins the idler: the library's idler() leaves its loop (2166, 2171)
+        { photon::RunQ rq0; if (rq0.current->get_vcpu()->state == photon::states::DONE) return nullptr; }
         Cmd c = gate();
         photon::RunQ rq;
         auto vcpu = rq.current->get_vcpu();
@@ -261,10 +280,10 @@ static void* os_main(void* arg) {
 // ---- placement dump (controller only, while every vCPU is blocked at a gate) -----------------------------
 static int vcpu_index(const volatile void* p) { for (int v = 0; v < NV; v++) if ((const volatile void*)VC[v] == p) return v; return -1; }
 static bool struct_valid(int k) {           // may T[k].th be dereferenced?
-    if (k >= N) return true;
+    if (k >= N) return !vfini[k - N];
     auto& t = T[k];
     if (!t.created) return false;
-    if (k < NV) return true;
+    if (k < NV) return !vfini[k];
     return !(t.exited && (!t.joinable || t.joined));
 }
 static thread* thread_of(int k) { return k < N ? T[k].th : VC[k - N]->idle_worker; }
@@ -279,6 +298,7 @@ static std::string join_ints(std::vector<std::string>& v) {
 static std::string dump() {
     std::string s; char buf[160];
     for (int v = 0; v < NV; v++) {
+        if (vfini[v]) { snprintf(buf, sizeof buf, "V%d[off] ", v); s += buf; continue; }
         auto vc = VC[v];
         std::vector<std::string> rq, sq, sb;
         thread* cur = *CURSLOT[v];
@@ -361,6 +381,7 @@ static void install_fatal_handlers() {
 // the thread a vCPU's OS thread is parked in must be a RUNNING thread of that vCPU, else the replay cannot go on
 static std::string current_sane() {
     for (int v = 0; v < NV; v++) {
+        if (vfini[v]) continue;
         thread* cur = *CURSLOT[v];
         if (!cur) return "vCPU " + std::to_string(v) + " has no CURRENT thread";
         std::string t = tid_of(cur);
@@ -408,7 +429,7 @@ static bool parse_items(const std::string& sec, std::vector<Item>& out) {
     }
     return true;
 }
-static const char* OPS[] = {"usleep", "yield", "interrupt", "create", "join", "migrate", "nthreads", "released", "nop"};
+static const char* OPS[] = {"usleep", "yield", "interrupt", "create", "join", "migrate", "nthreads", "released", "nop", "waitall", "fini"};
 
 static bool parse_case(const std::string& line) {
     auto secs = split(line, '|');
